@@ -5,7 +5,7 @@
    which the edit script pairs as identical survive every clean-up.  How go/printer places
    the surviving comments, which comments ast.NewCommentMap attaches to which node and which
    pairs internal/diff finds identical are observed, not modelled (see the end of this file). *)
-From GP Require Import Comments CommentFacts AstDiff AstDiffFacts.
+From GP Require Import Comments CommentFacts AstDiff AstDiffFacts DiffFacts.
 Local Open Scope Z_scope.
 
 (* No comment is invented, duplicated or reordered, whatever the changes report: after any
@@ -93,6 +93,25 @@ Theorem C17_clear_comment_survives : forall (steps : list (list region * list iv
   In cm (run_steps (map (fun s => (record_changed (fst s), snd s)) steps) cs).
 Proof. exact clear_comment_survives. Qed.
 Print Assumptions C17_clear_comment_survives.
+
+(* the edit script marks a pair as identical only if the two nodes compare equal (no differing
+   leaf): comments are handed over (changeFinder.unchanged) between equal nodes only *)
+Theorem C17_identical_means_equal : forall f nx ny es, 0 <= nx -> 0 <= ny ->
+  difference f nx ny = Some es -> vpath f es 0 0 nx ny.
+Proof. exact difference_is_a_path. Qed.
+Print Assumptions C17_identical_means_equal.
+
+(* F22, in the model: without the filter of [record_changed] - i.e. recording the spans that
+   start at NoPos too, as the code did before fix 0c337b7 - two match sites suffice to delete a
+   comment that no span with a valid start comes near: the unchanged spans of the two sites cut
+   the NoPos spans into pieces, and the piece between the sites starts at a valid position *)
+Example C17_nopos_spans_refuted :
+  let calls := [(nopos, 50); (nopos, 200)] in            (* the '(' added at two sites *)
+  let unchanged := [(10, 40); (120, 180)] in             (* the elided bodies of the two functions *)
+  let cm := {| c_id := 7; c_pos := 60; c_end := 75 |} in (* a comment of a declaration in between *)
+  run_steps [(calls, unchanged)] [cm] = []
+  /\ run_steps [(record_changed calls, unchanged)] [cm] = [cm].
+Proof. vm_compute. split; reflexivity. Qed.
 
 (* the premises are satisfiable: three declarations, the middle one modified; the comments of the
    outer two (a doc comment, a trailing comment) are attached, the list is well-formed, the walk
